@@ -94,6 +94,9 @@ const (
 	vfHotLast    = "/wz-last"
 )
 
+// (X, Y) pairs of the rename scenarios, all under the watched prefix
+var vfRenamePairs = [][2]string{{"/w/k1", "/w/k2"}, {"/w/k2", "/w/k1"}, {"/w/k0", "/wk3"}, {"/wk3", "/w/k0x"}}
+
 func vfFillerKey(i int) string { return fmt.Sprintf("/w/f%03d", i) }
 
 type vfHistory struct {
@@ -105,6 +108,8 @@ type vfHistory struct {
 	OutageMs           int
 	TailBurst          int
 	RecreateUnobserved bool
+	RenameUnobserved   bool
+	RenameTail         bool
 	Wide               int // number of filler keys under the watched prefix (0 = narrow)
 	WideBurst          int
 	k0AtFault          bool
@@ -310,12 +315,30 @@ func vfGenHistory(rt *rapid.T) *vfHistory {
 			h.states = append(h.states, cur)
 			h.Steps = append(h.Steps, vfStep{Op: "write", KVs: []vfKV{kv}, Note: note, state: len(h.states) - 1})
 		}
-		// "recreate unobserved" (half of the partitions): the watched single key is (re)created, so
+		// "recreate unobserved" (about two fifths of the partitions): the watched single key is (re)created, so
 		// that the copy the syncer holds has etcd version 1; inside the partition it is deleted and
 		// created again with ANOTHER value (etcd version 1 again, nothing else touched), and after
 		// the partition nothing is written any more. The syncer never sees the deleted state; the
 		// only difference to what it holds is the value.
-		h.RecreateUnobserved = rapid.Bool().Draw(rt, "recreateUnobserved")
+		// "rename unobserved" (about two fifths of the partitions): key X exists and Y does not, the syncer has
+		// seen that; inside the partition X is deleted and Y is put (same number of keys, every
+		// surviving key unchanged), then nothing is written any more.
+		pmode := rapid.SampledFrom([]string{"rename", "recreate", "rename", "recreate", "random"}).Draw(rt, "partitionMode")
+		h.RecreateUnobserved = pmode == "recreate"
+		h.RenameUnobserved = pmode == "rename"
+		var rnX, rnY string
+		if h.RenameUnobserved {
+			pair := rapid.SampledFrom(vfRenamePairs).Draw(rt, "renamePair")
+			rnX, rnY = pair[0], pair[1]
+			if _, ok := cur[rnX]; !ok {
+				v := rapid.SampledFrom(vfVals).Draw(rt, "rnVal0")
+				push(vfKV{rnX, &v}, "")
+			}
+			if _, ok := cur[rnY]; ok {
+				push(vfKV{rnY, nil}, "")
+			}
+			h.Steps = append(h.Steps, vfStep{Op: "pause", PauseMs: 300})
+		}
 		if h.RecreateUnobserved {
 			if _, ok := cur["/w/k0"]; ok {
 				push(vfKV{"/w/k0", nil}, "")
@@ -341,6 +364,10 @@ func vfGenHistory(rt *rapid.T) *vfHistory {
 			h.nRecreate++
 			push(vfKV{"/w/k0", nil}, "delete-then-recreate, unobserved")
 			push(vfKV{"/w/k0", &v2}, "recreate with another value, etcd version 1 again")
+		} else if h.RenameUnobserved {
+			v := rapid.SampledFrom(vfVals).Draw(rt, "rnVal")
+			push(vfKV{rnX, nil}, "rename, unobserved: delete X ...")
+			push(vfKV{rnY, &v}, "... put Y")
 		} else {
 			cur = vfGenWrites(rt, h, cur, rapid.IntRange(minCut, 6).Draw(rt, "nCut"), "cut.")
 		}
@@ -351,7 +378,7 @@ func vfGenHistory(rt *rapid.T) *vfHistory {
 		h.Steps = append(h.Steps, vfStep{Op: "pause", PauseMs: h.OutageMs})
 		h.Steps = append(h.Steps, vfStep{Op: "heal"})
 	}
-	if h.RecreateUnobserved {
+	if h.RecreateUnobserved || h.RenameUnobserved {
 		return h // then quiet
 	}
 	cur = vfGenWrites(rt, h, cur, rapid.IntRange(0, 18).Draw(rt, "nB"), "b.")
@@ -369,6 +396,33 @@ func vfGenHistory(rt *rapid.T) *vfHistory {
 			h.states = append(h.states, cur)
 			h.Steps = append(h.Steps, vfStep{Op: "write", KVs: []vfKV{{"/w/k0", &v}}, state: len(h.states) - 1})
 		}
+	} else if rapid.Bool().Draw(rt, "renameTail") {
+		// rename tail: X exists, Y does not, the syncer has had time to see that; then ONE transaction
+		// deletes X and puts Y (key count unchanged, every surviving key unchanged), then silence
+		h.RenameTail = true
+		pair := rapid.SampledFrom(vfRenamePairs).Draw(rt, "renamePair")
+		apply := func(kvs []vfKV, note string) {
+			cur = vfCopyState(cur)
+			for _, kv := range kvs {
+				if kv.Val == nil {
+					delete(cur, kv.Key)
+				} else {
+					cur[kv.Key] = *kv.Val
+				}
+			}
+			h.states = append(h.states, cur)
+			h.Steps = append(h.Steps, vfStep{Op: "write", KVs: kvs, Note: note, state: len(h.states) - 1})
+		}
+		if _, ok := cur[pair[0]]; !ok {
+			v := rapid.SampledFrom(vfVals).Draw(rt, "rnVal0")
+			apply([]vfKV{{pair[0], &v}}, "")
+		}
+		if _, ok := cur[pair[1]]; ok {
+			apply([]vfKV{{pair[1], nil}}, "")
+		}
+		h.Steps = append(h.Steps, vfStep{Op: "pause", PauseMs: 300})
+		v := rapid.SampledFrom(vfVals).Draw(rt, "rnVal")
+		apply([]vfKV{{pair[0], nil}, {pair[1], &v}}, "rename in one transaction")
 	}
 	return h
 }
@@ -820,6 +874,12 @@ func TestVerifC19Syncer(t *testing.T) {
 		}
 		if h.nSameVal > 0 {
 			vf.Class("has-same-value-put")
+		}
+		if h.RenameUnobserved {
+			vf.Class("rename-unobserved-in-partition-delete-X-put-Y")
+		}
+		if h.RenameTail {
+			vf.Class("rename-in-one-transaction-then-quiet")
 		}
 		if h.RecreateUnobserved {
 			vf.Class("recreate-unobserved-in-partition-same-etcd-version-other-value")
